@@ -62,7 +62,7 @@ CHECKS = {
             "coordinates at and adjacent to every bound, N,M in 1..4 (N != M), five coordinate types; plus array storage under ASan.",
             "Box membership evaluated in long double (exact for all generated values).", "DESIGN.md section 4 C11"),
     "C12": ("exploration", SAN + "LeakSanitizer; ND-array model of a slot pool, compared after every operation",
-            "Every enabled history of length <= 3 (4 thorough) over a 32-letter alphabet of ownership operations on 2 slots for four type pairs, replayed from an "
+            "Every enabled history of length <= 3 (4 thorough) over a 36-letter alphabet of ownership operations on 2 slots for four type pairs, replayed from an "
             "empty pool, plus seeded random histories of 200 operations on 4 slots; after every operation every live field equals its model at every cell through "
             "fresh and long-lived views; ASan/LSan/UBSan watch the special members.",
             "Self-assignment (copy and move) must preserve the field; moved-from fields are never viewed.", "DESIGN.md section 4 C12"),
